@@ -35,6 +35,7 @@ const (
 	stDerived
 	stQuery
 	stFlood
+	stTransient
 )
 
 type histStep struct {
@@ -45,6 +46,8 @@ type histStep struct {
 	// stFlood
 	floodN    int
 	floodBase string
+	// stTransient: the next failN retrievals of list failList fail
+	failList, failN int
 }
 
 // floodOp is the i-th request of a flood under base.
@@ -79,6 +82,16 @@ func RunC13(ch *core.Chooser, env *Env) *Outcome {
 		maxLines, maxOps = 150, 400
 	}
 	lists := drawLists(ch, hosts, workload.AllKinds, 3, 1, maxLines, 0)
+	// some lists sit behind a stub that can be told to fail a few retrievals:
+	// a read error in the PAST is part of the history too, and once the list
+	// reads again answers must be what a fresh engine gives
+	var stubbed []int
+	for i := range lists {
+		if ch.Intn("list.faulty", 4) == 3 {
+			lists[i].Faulty = true
+			stubbed = append(stubbed, i)
+		}
+	}
 
 	// ---- plan
 	allLines := planLines(lists)
@@ -114,6 +127,8 @@ func RunC13(ch *core.Chooser, env *Env) *Outcome {
 			steps = append(steps, histStep{kind: stFlood, floodN: 150 + ch.Intn("flood.n", 1400), floodBase: hosts[ch.Intn("q.host", len(hosts))]})
 		case act == 0:
 			steps = append(steps, histStep{kind: stEnvFlush})
+		case act == 2 && len(stubbed) > 0:
+			steps = append(steps, histStep{kind: stTransient, failList: stubbed[ch.Intn("hist.faillist", len(stubbed))], failN: 1 + ch.Intn("hist.failn", 3)})
 		case act <= 6 && ringLen > 0:
 			steps = append(steps, histStep{kind: stDerived, ringPick: ch.Intn("hist.old", ringLen), d0: ch.Intn("hist.derived", workload.NumDerived)})
 		default:
@@ -254,6 +269,11 @@ func RunC13(ch *core.Chooser, env *Env) *Outcome {
 			// request (bounded caches, counters) is pushed past its limits
 			bad := ""
 			ask := func(i int, compare bool) {
+				for _, fy := range sub.Faulty {
+					if fy != nil && fy.Active() {
+						compare = false // a list is still failing: degraded answers are legitimate
+					}
+				}
 				o := floodOp(i, st.floodBase)
 				var c string
 				if perr := safely(func() { c = workload.Exec(e, &o).Canon() }); perr != "" {
@@ -280,6 +300,13 @@ func RunC13(ch *core.Chooser, env *Env) *Outcome {
 			if o := checkRetained("a flood of distinct requests"); o != nil {
 				return o
 			}
+		case stTransient:
+			if err := sub.Inject(disk.FStubTransient, st.failList, env.Dir, st.failN); err != nil {
+				out.Invalid, out.InvalidReason = true, "inject: "+err.Error()
+				return out
+			}
+			out.Faults["stub_transient"]++
+			hist = append(hist, fmt.Sprintf("env: the next %d retrievals from list #%d fail", st.failN, st.failList))
 		case stEnvFlush:
 			runtime.GC()
 			runtime.GC()
@@ -318,6 +345,13 @@ func RunC13(ch *core.Chooser, env *Env) *Outcome {
 				flushedSinceDNS = false
 			}
 			f := fresh[o.Key()]
+			// while a stub is still failing the answer is legitimately
+			// degraded (that is C19's business): the query is executed but
+			// neither compared nor retained
+			degraded := false
+			for _, fy := range sub.Faulty {
+				degraded = degraded || (fy != nil && fy.Active())
+			}
 			var res *workload.Result
 			var reqBefore, reqAfter string
 			if perr := safely(func() {
@@ -331,7 +365,16 @@ func RunC13(ch *core.Chooser, env *Env) *Outcome {
 					res = workload.Exec(e, &o)
 				}
 			}); perr != "" {
+				if degraded {
+					out.Invalid, out.InvalidReason = true, "panic while a list was failing (C19's domain): "+perr
+					return out
+				}
 				return fail("panic:"+opClass(&o), fmt.Sprintf("query %s panicked although the same query on a fresh engine did not\n%s", o.Key(), perr))
+			}
+			if degraded {
+				out.Probes["queries_while_a_list_was_failing_not_compared"]++
+				hist = append(hist, fmt.Sprintf("query %s (a list is failing: not compared)", o.Key()))
+				break
 			}
 			queries++
 			if res.DNS != nil && len(res.DNS.NetworkRules) > 0 {
